@@ -5,6 +5,7 @@ mod c19;
 mod c17;
 mod c18;
 mod c14;
+mod c20;
 use util::*;
 
 fn main() {
@@ -52,6 +53,7 @@ fn main() {
                 "C17" => c17::corr(&mut ctx),
                 "C18" => c18::corr(&mut ctx),
                 "C14" => c14::corr(&mut ctx),
+                "C20" => c20::corr(&mut ctx),
                 "C19sweep" => c19::sweep(&mut ctx),
                 _ => {
                     eprintln!("unknown property {}", prop);
